@@ -84,6 +84,14 @@ pub fn gen_map(rng: &mut Rng, mix: &Mix) -> MapCase {
 
 /// Generate until a decodable, in-domain map is found (bounded retries).
 pub fn gen_domain_map(rng: &mut Rng, mix: &Mix, dom: Domain) -> Option<(MapCase, Beatmap)> {
+    // 1.5 % of the maps of every monitor: a mid-size map made of phases (see `osu::phased_file`)
+    if rng.below(1000) < 15 {
+        if let Some(r) = gen_phased(rng, mix.mode) {
+            if maps::out_of_domain(&r.1, dom, 400).is_none() {
+                return Some(r);
+            }
+        }
+    }
     for _ in 0..20 {
         let mc = gen_map(rng, mix);
         if let Some(map) = maps::decode(&mc.text) {
@@ -93,6 +101,16 @@ pub fn gen_domain_map(rng: &mut Rng, mix: &Mix, dom: Domain) -> Option<(MapCase,
         }
     }
     None
+}
+
+pub fn gen_phased(rng: &mut Rng, mode: Option<u8>) -> Option<(MapCase, Beatmap)> {
+    let file_mode = match mode {
+        Some(m) => m,
+        None => *rng.pick(&[0u8, 0, 0, 1, 1, 2, 3]),
+    };
+    let n = 130 + rng.usize_below(270);
+    let text = osu::phased_file(rng, file_mode, n).render();
+    maps::decode(&text).map(|m| (MapCase { text, tag: "phased".into() }, m))
 }
 
 /// `gen_domain_map` plus two rare classes for monitors whose property quantifies over *all* maps: `long_pm` per mille of
